@@ -11,21 +11,22 @@
  * byte the callers guarantee to exist (the NUL of the string, or ']' for the
  * flag list of the sort file). Any access outside is a pointer-check failure.
  *
- * Token list: calloc/realloc/free of split_line.c are bound to a contract
- * model with ONE typed fixed-capacity object g_sl (split_line_t + SL_CAP
- * pointers): calloc returns NULL or that object zeroed, realloc returns NULL
- * (the block stays live) or the same block and carries the capacity
- * obligation  C07.split_unb.capacity : requested size <= sizeof(header) +
- * ((len+1)/2) pointers  - i.e. at most (len+1)/2 tokens, for every len.
- * The real append_arg runs on that object.
+ * Token list: realloc makes the stored pointers opaque to the tool, so the
+ * list is ONE typed object g_sl (the split_line_t header; natively with
+ * SL_CAP pointer slots): calloc returns NULL or that object zeroed, and
+ * append_arg (4 lines, realloc + store; exercised for real by the bounded
+ * harness split_line) is replaced by its contract stub_append_arg, which
+ * carries the obligations on EVERY appended token:
+ *  C07.split_unb.capacity      count + 1 <= (len+1)/2 - the list never needs
+ *                              more than (len+1)/2 slots, for every len
+ *  C07.split_unb.args_in_line  the token pointer lies in line[0..len), at or
+ *                              above the previous token's terminator
+ * and either fails (frees the list, returns NULL) or bumps count.
  *
  *  C07.split_unb.status_domain  one of the four SPLIT_LINE_* codes
  *  C07.split_unb.in_place       (loop invariants) dst <= src at the head of
  *                               every token, dst <= src + 1 <= line + len + 1
  *                               at the end: the decoder never grows the text
- *  C07.split_unb.args_in_line   on success, for an arbitrary witness index
- *                               w < count: args[w] points into line[0..len]
- *                               (invariant: below the write cursor)
  *  C07.split_unb.count          on success count <= (len+1)/2
  *  C07.split_unb.fail_null      on failure *out is not set
  *  C07.split_unb.no_leak        on failure the list is freed exactly once, on
@@ -45,12 +46,17 @@
 #endif
 #define SL_CAP ((SPLIT_MAX + 1) / 2)
 
+#ifdef VERIF_REPLAY
 struct w15_sl { split_line_t s; char *args[SL_CAP]; };
+#else
+struct w15_sl { split_line_t s; };
+#endif
 struct w15_sl g_sl;
+char *g_sl_line;     /* ghost: the line */
+size_t g_sl_prev;    /* ghost: offset of the previous token + 1 (0: none) */
 int g_sl_live;       /* 1 while the token list is allocated */
 int g_sl_frees;      /* number of frees */
 size_t g_sl_len0;    /* ghost: len on entry */
-size_t g_sl_w;       /* ghost: witness token index */
 char g_sep0, g_sep1; /* ghost: the separator characters */
 
 static void *w15_calloc(size_t n, size_t sz)
@@ -86,6 +92,25 @@ static void w15_free(void *p)
 	g_sl_frees += 1;
 }
 
+/* contract of append_arg (goto-instrument --replace-calls) */
+split_line_t *stub_append_arg(split_line_t *in, char *arg)
+{
+	VERIF_ASSERT(in == &g_sl.s && g_sl_live == 1, "C07.split_unb.realloc_valid");
+	VERIF_ASSERT(in->count + 1 <= (g_sl_len0 + 1) / 2, "C07.split_unb.capacity");
+	VERIF_ASSERT(VERIF_SAME_OBJECT(arg, g_sl_line) &&
+		     VERIF_POINTER_OFFSET(arg) < g_sl_len0 &&
+		     VERIF_POINTER_OFFSET(arg) >= g_sl_prev,
+		     "C07.split_unb.args_in_line");
+	if (verif_nd_bool("append_fails")) {
+		g_sl_live = 0;
+		g_sl_frees += 1;
+		return NULL;
+	}
+	g_sl_prev = VERIF_POINTER_OFFSET(arg) + 1;
+	in->count += 1;
+	return in;
+}
+
 #define calloc(n, s) w15_calloc(n, s)
 #define realloc(p, s) w15_realloc(p, s)
 #define free(p) w15_free(p)
@@ -113,7 +138,8 @@ void harness(void)
 	line = malloc(len + 1);
 	VERIF_ASSUME(line != NULL);
 	g_sl_len0 = len;
-	g_sl_w = verif_nd_size("w");
+	g_sl_line = line;
+	g_sl_prev = 0;
 
 	ret = split_line(line, len, sep, &out);
 
@@ -125,12 +151,6 @@ void harness(void)
 		VERIF_ASSERT(out == &g_sl.s && g_sl_live == 1 && g_sl_frees == 0,
 			     "C07.split_unb.no_leak");
 		VERIF_ASSERT(out->count <= (len + 1) / 2, "C07.split_unb.count");
-		if (g_sl_w < out->count) {
-			char *a = g_sl.args[g_sl_w];
-			VERIF_ASSERT(VERIF_SAME_OBJECT(a, line) &&
-				     VERIF_POINTER_OFFSET(a) <= len,
-				     "C07.split_unb.args_in_line");
-		}
 		VERIF_COVER(out->count == 0);
 		VERIF_COVER(out->count == 1);
 		VERIF_COVER(out->count > 2 && len > 8);
